@@ -101,7 +101,7 @@ def run(tier, seed_):
     jobs = common.NCPU
     recs = []
     with ProcessPoolExecutor(max_workers=jobs) as ex:
-        for part in ex.map(_worker, [(shapes[i::jobs], i * 100000, seed_) for i in range(jobs) if shapes[i::jobs]]):
+        for part in ex.map(_worker, [(shapes[i::jobs], i * 100003, seed_) for i in range(jobs) if shapes[i::jobs]]):
             recs += part
     # larger instances that the bounded enumeration cannot contain: long chordless cycles, one large
     # hyperedge (many triangles per node), random hypergraphs on 8 nodes
